@@ -8,6 +8,7 @@ level_text="TBD",
 level_note="TBD",
 stages=[
     dict(name="small", harness="c16", oracle="C16", args=["-stage", "small"]),
+    dict(name="date", harness="c16", oracle="C16", args=["-stage", "date"]),
 ],
 rule="TBD",
 exhaustive=True,
